@@ -10,6 +10,10 @@ def main():
     if os.environ.get("PYTHONHASHSEED") != "0":
         os.execve(sys.executable, [sys.executable, "-m", "mc.replay"] + sys.argv[1:], dict(os.environ, PYTHONHASHSEED="0"))
     sys.dont_write_bytecode = True
+    repo = os.environ.get("MC_REPO")
+    if repo:
+        sys.path.insert(0, os.path.join(repo, "src"))
+        os.environ["PYTHONPATH"] = os.path.join(repo, "src")
     rec = json.load(open(path))
     from mc.drivers import warm  # noqa
     from mc.engine import pool
